@@ -119,9 +119,13 @@ def _texts(tier, **fixed):
         yield (sep.join(rnd.choice(parts) for _ in range(k)),)
     for t in ("i", "i-", "i_", "i- ", "i-a", "I_a b", "ia", "i--", "i-\t", "i" + "x" * 50):
         yield (t,)
+    # characters for which str.isdigit() is true but int() fails, and digits of other scripts
+    for ch in "\u00b2\u00b3\u00b9\u2070\u2074\u2080\u2460\u2474\u2488\u24ea\u0661\u0967\uff11\u1369\u3007\u4e00":
+        for t in (ch, ch + ch, "1" + ch, ch + "/1/1", "1/" + ch + "/1", "1/1/" + ch, "1." + ch + ".1", ch + ".1.1", "1.1." + ch, "i" + ch):
+            yield (t,)
 
 
-@standin("C01", cases=_texts, kind="enum-native", exhaustive=False, bound="all texts up to 4 (quick) / 5 (thorough) characters over a 13..17 character alphabet (digits / . - _ space i * x + newline), plus 2*10^4 / 2*10^5 seeded structured near-misses (level values around every limit, leading zeros, signs, blanks, non-ASCII digits)")
+@standin("C01", cases=_texts, kind="enum-native", exhaustive=False, bound="all texts up to 4 (quick) / 5 (thorough) characters over a 13..17 character alphabet (digits / . - _ space i * x + newline), plus 2*10^4 / 2*10^5 seeded structured near-misses (level values around every limit, leading zeros, signs, blanks) and 16 non-ASCII digit-like characters in every level position")
 def any_text_parses_canonically_or_is_refused(text):
     for cls in (IndividualAddress, GroupAddress, InternalGroupAddress):
         try:
